@@ -11,6 +11,7 @@ ENGINES = {
  "codec": ("harness/codec.cpp", "registry of 125 parse/toXml pairs of the library; DOM mutators, transparent-position probing, canonical comparison; under ASan/UBSan"),
  "msg": ("harness/msg.cpp", "QXmppMessage split into public/sensitive parts the way the encrypted send path and the OMEMO manager do it, and recovered from both parts"),
  "sasl": ("harness/sasl.cpp", "SaslManager / Sasl2Manager / QXmppSaslClient behind a mock SendDataInterface, driven by JSON lines; Python reference choice function and RFC implementations"),
+ "server": ("harness/server.cpp", "the real QXmppServer on loopback with a logging password checker; raw scripted TCP clients and a logged-in victim are played from Python (lib/rawxmpp.py)"),
  "split": ("harness/split.cpp", "loopback TCP feeder that delivers a byte stream to the real XmppSocket chunk by chunk and records the open/stanza/close events and the observed read sizes"),
  "wire": ("harness/wire.cpp", "scripted fake XMPP server (QTcpServer/QSslSocket on 127.0.0.1:0, incremental XML reader, own XEP-0198 counters, TLS with a committed test certificate, relay mode) and real QXmppClient objects in one event loop; journal of every element in both directions, client signal, task completion and state query"),
  "stun": ("harness/stun.cpp", "QXmppStunMessage encode/decode + HMAC/CRC helpers driven by JSON lines; Python hmac/zlib oracle"),
@@ -89,6 +90,10 @@ CHECKS["C19"] = dict(engine="wire", cat="fault_enumeration",
    text="in-band file transfers between two real clients with QXmppTransferManager relayed by the fake server: sizes {0,1,b-1,b,b+1,2b,3b+5} x block sizes {1,7,4096} x contents {zeros, random, all byte values}, with and without announced hash, transfers of more than 65536 blocks (16-bit counter wrap), and every single fault (drop, duplicate, swap with next, bit flip, early close, wrong session id, wrong sender, wrong sequence number) at every block position of short transfers (thorough: more sizes and 3000 random faults); oracle: receiver reports success only with byte-identical content, fault-free transfers succeed on both sides",
    note="block sizes other than 4096 use the QXMPP_VERIF_HOOKS setter; SOCKS5 bytestreams are not exercised; a fault that leaves the received bytes intact (e.g. a rejected duplicate) may still end in success",
    tech="runtime monitoring: single-fault injection in a relaying server with byte comparison of the receiver's device against the sent content, under ASan/UBSan")
+CHECKS["C16"] = dict(engine="server", cat="exploration",
+   text="raw TCP client scripts against the real QXmppServer while a properly authenticated victim is online: every word of length <= 4 (quick) / 5 (thorough) over an 8-letter alphabet {open stream, PLAIN right/wrong, bind, message/presence/iq with from absent or victim's}, every pair over a 27-letter alphabet after a stream open (wrong domain, malformed/prefix/authzid credentials, DIGEST-MD5 right/wrong, ANONYMOUS, unknown mechanism, SASL2, abort, response without auth, session, from third/own/empty), random words up to length 12; unique markers tie each delivery at the victim to its send event and the sender's authentication state; oracle: nothing from an unauthenticated connection is delivered or answered, clientConnected only for authenticated users, delivered stanzas carry the authenticated sender's JID, SASL success only for credentials the checker approves; the server process runs under ASan/UBSan",
+   note="no server extensions are loaded (routing by destination only); server-to-server paths are not exercised; attacker-side replies are awaited with short timeouts, deliveries are fenced logically on the victim's connection",
+   tech="runtime monitoring: marker-tracking oracle over the transcripts of raw scripted clients against the real server, sanitizers on the server process")
 REASON_TODO = "check not built yet in this session (planned, see DESIGN.md §2)"
 
 def main():
